@@ -82,11 +82,11 @@ class Norm:
         if kind == z3.Z3_OP_TO_REAL:
             return (t, None)
         if kind == z3.Z3_OP_ITE and z3.is_real(t):
-            c = self.formula(ch[0]); (an, ad), (bn, bd) = self.frac(ch[1]), self.frac(ch[2])
-            if ad is None and bd is None:
-                return (z3.If(c, an, bn), None)
-            ad = self._one() if ad is None else ad; bd = self._one() if bd is None else bd
-            return (z3.If(c, an * bd, bn * ad), ad * bd)
+            # if-then-else terms stay OPAQUE: a division inside a branch is guarded by the condition (e.g. the 0/0 := 0 convention
+            # ite(d = 0, 0, x/d)), so its divisor must not be asserted non-zero globally and the branches must not be brought to a common
+            # denominator.  (An earlier version did both and turned a satisfiable query with coincident knots into 'unsat'; found by a
+            # differential run against the plain solver, see DESIGN 10.10.)
+            return (t, None)
         if kind == z3.Z3_OP_UNINTERPRETED and ch:
             # uninterpreted function: arguments keep their divisions (sound: same term on both sides), treat as atom
             return (t, None)
@@ -109,25 +109,34 @@ class Norm:
             return {z3.Z3_OP_LE: diff <= 0, z3.Z3_OP_LT: diff < 0, z3.Z3_OP_GE: diff >= 0, z3.Z3_OP_GT: diff > 0}[kind]
         return t
 
-    def formula(self, f):
-        k = ('f', f.get_id())
-        if k in self.memo: return self.memo[k]
+    def formula(self, f, top=True):
+        """rewrite only LITERALS IN TOP-LEVEL CONJUNCT POSITION (after pushing negations through not/implies/or): such a literal is
+        evaluated in every model of the query, so requiring its divisors to be non-zero only removes models that rely on z3's unspecified
+        x/0.  Anything below a disjunction (Or, Implies, Boolean ite, Iff) is left untouched: there a division may be guarded by a
+        sibling disjunct (`d = 0 or x/d > 1`) and asserting d != 0 globally would be unsound."""
         kind = f.decl().kind() if z3.is_app(f) else None
         ch = f.children() if z3.is_app(f) else []
-        if kind == z3.Z3_OP_AND: r = z3.And(*[self.formula(c) for c in ch])
-        elif kind == z3.Z3_OP_OR: r = z3.Or(*[self.formula(c) for c in ch])
-        elif kind == z3.Z3_OP_NOT: r = z3.Not(self.formula(ch[0]))
-        elif kind == z3.Z3_OP_IMPLIES: r = z3.Implies(self.formula(ch[0]), self.formula(ch[1]))
-        elif kind == z3.Z3_OP_ITE and z3.is_bool(f): r = z3.If(self.formula(ch[0]), self.formula(ch[1]), self.formula(ch[2]))
-        elif kind in (z3.Z3_OP_EQ, z3.Z3_OP_DISTINCT) and ch and z3.is_bool(ch[0]):
-            a, b = self.formula(ch[0]), self.formula(ch[1])
-            r = (a == b) if kind == z3.Z3_OP_EQ else (a != b)
-        elif z3.is_app(f) and z3.is_bool(f) and ch:
-            r = self.atom(f)
-        else:
-            r = f
-        self.memo[k] = r
-        return r
+        if not top:
+            return f
+        if kind == z3.Z3_OP_AND:
+            return z3.And(*[self.formula(c, True) for c in ch])
+        if kind == z3.Z3_OP_NOT:
+            g = ch[0]
+            gk = g.decl().kind() if z3.is_app(g) else None
+            gc = g.children() if z3.is_app(g) else []
+            if gk == z3.Z3_OP_NOT: return self.formula(gc[0], True)
+            if gk == z3.Z3_OP_OR: return z3.And(*[self.formula(z3.Not(c), True) for c in gc])
+            if gk == z3.Z3_OP_IMPLIES: return z3.And(self.formula(gc[0], True), self.formula(z3.Not(gc[1]), True))
+            if gk in (z3.Z3_OP_AND, z3.Z3_OP_ITE) or (gk in (z3.Z3_OP_EQ, z3.Z3_OP_DISTINCT) and gc and z3.is_bool(gc[0])):
+                return f
+            if z3.is_app(g) and z3.is_bool(g) and gc:
+                return z3.Not(self.atom(g))
+            return f
+        if kind in (z3.Z3_OP_OR, z3.Z3_OP_IMPLIES, z3.Z3_OP_ITE) or (kind in (z3.Z3_OP_EQ, z3.Z3_OP_DISTINCT) and ch and z3.is_bool(ch[0])):
+            return f
+        if z3.is_app(f) and z3.is_bool(f) and ch:
+            return self.atom(f)
+        return f
 
 
 def clear(formulas):
